@@ -32,7 +32,8 @@ class PickleOpacity(InterpolatingOpacity):
 
         for f in files:
             splits = pathlib.Path(f).stem.split('.')
-            mol_name = sanitize_molecule_string(splits[0])
+            # Drop '_<linelist/resolution>' suffixes before sanitising
+            mol_name = sanitize_molecule_string(splits[0].split('_')[0])
 
             discovery.append((mol_name, [f, interp]))
 
@@ -75,7 +76,8 @@ class PickleOpacity(InterpolatingOpacity):
         self._resolution = np.average(np.diff(self._wavenumber_grid))
 
         splits = pathlib.Path(filename).stem.split('.')
-        mol_name = sanitize_molecule_string(splits[0])
+        # Drop '_<linelist/resolution>' suffixes before sanitising
+        mol_name = sanitize_molecule_string(splits[0].split('_')[0])
         self._molecule_name = mol_name
 
         self._min_pressure = self._pressure_grid.min()
